@@ -194,7 +194,9 @@ namespace c16
     typedef Space::Discontinuous::Element<TrafoType, Space::Discontinuous::Variant::StdPolyP<0>> SpaceD0;
     typedef Space::CroRavRanTur::Element<TrafoType> SpaceCR;
 
-    const Config& g; bool full; std::ostream& o;
+    // mode: 1 = everything (oracle stream), 0 = classic route, result only, 4 = job route, result only,
+    //       2 = only what the cell loop hands to the scatter object (recording, no other call before it)
+    const Config& g; int mode; bool full; std::ostream& o;
     MeshType mesh; TrafoType trafo;
 
     static MeshType make_mesh(const Config& g)
@@ -219,7 +221,7 @@ namespace c16
       return m;
     }
 
-    Fe(const Config& gg, bool ff, std::ostream& oo) : g(gg), full(ff), o(oo), mesh(make_mesh(gg)), trafo(mesh) {}
+    Fe(const Config& gg, int mm, std::ostream& oo) : g(gg), mode(mm), full(mm == 1), o(oo), mesh(make_mesh(gg)), trafo(mesh) {}
 
     static void show_mesh_of(std::ostream& o, const MeshType& mesh)
     {
@@ -240,6 +242,24 @@ namespace c16
     {
       TestSpace_ test(trafo); TrialSpace_ trial(trafo);
       Cubature::DynamicFactory cub(g.rule);
+      if(mode == 2)
+      {
+        RecMatrix rec(test.get_num_dofs(), trial.get_num_dofs());
+        Assembly::BilinearOperatorAssembler::assemble_matrix2(rec, op, test, trial, cub, g.alpha);
+        o << "T " << test.get_num_dofs() << " S " << trial.get_num_dofs() << " R "; show_rec(o, rec.calls);
+        return;
+      }
+      if(mode == 4)
+      {
+        MatrixQ b;
+        Assembly::SymbolicAssembler::assemble_matrix_std2(b, test, trial);
+        b.format();
+        Assembly::DomainAssembler<TrafoType> dom_asm(trafo);
+        dom_asm.compile_all_elements();
+        Assembly::assemble_bilinear_operator_matrix_2(dom_asm, b, op, test, trial, g.rule, g.alpha);
+        o << "M "; show_csr_pattern(o, b); o << " "; show_q(o, b.val(), b.used_elements());
+        return;
+      }
       MatrixQ a;
       Assembly::SymbolicAssembler::assemble_matrix_std2(a, test, trial);
       a.format();
@@ -280,6 +300,24 @@ namespace c16
     {
       Space_ space(trafo);
       Cubature::DynamicFactory cub(g.rule);
+      if(mode == 2)
+      {
+        RecMatrix rec(space.get_num_dofs(), space.get_num_dofs());
+        Assembly::BilinearOperatorAssembler::assemble_matrix1(rec, op, space, cub, g.alpha);
+        o << "T " << space.get_num_dofs() << " S " << space.get_num_dofs() << " R "; show_rec(o, rec.calls);
+        return;
+      }
+      if(mode == 4)
+      {
+        MatrixQ b;
+        Assembly::SymbolicAssembler::assemble_matrix_std1(b, space);
+        b.format();
+        Assembly::DomainAssembler<TrafoType> dom_asm(trafo);
+        dom_asm.compile_all_elements();
+        Assembly::assemble_bilinear_operator_matrix_1(dom_asm, b, op, space, g.rule, g.alpha);
+        o << "M "; show_csr_pattern(o, b); o << " "; show_q(o, b.val(), b.used_elements());
+        return;
+      }
       MatrixQ a;
       Assembly::SymbolicAssembler::assemble_matrix_std1(a, space);
       a.format();
@@ -320,6 +358,22 @@ namespace c16
       Cubature::DynamicFactory cub(g.rule);
       PolyFunction<dim> ff(g.cv), fu(g.cu);
       Assembly::Common::ForceFunctional<PolyFunction<dim>> func(ff);
+      if(mode == 2)
+      {
+        RecVector rec(space.get_num_dofs());
+        Assembly::LinearFunctionalAssembler::assemble_vector(rec, func, space, cub, g.alpha);
+        o << "T " << space.get_num_dofs() << " S 0 R "; show_rec(o, rec.calls);
+        return;
+      }
+      if(mode == 4)
+      {
+        Assembly::DomainAssembler<TrafoType> dom_asm(trafo);
+        dom_asm.compile_all_elements();
+        VectorQ b(space.get_num_dofs(), Q(0));
+        Assembly::assemble_linear_functional_vector(dom_asm, b, func, space, g.rule, g.alpha);
+        o << "W "; show_q(o, b.elements(), b.size());
+        return;
+      }
       VectorQ a(space.get_num_dofs(), Q(0));
       Assembly::LinearFunctionalAssembler::assemble_vector(a, func, space, cub, g.alpha);
       if(!full)
@@ -390,18 +444,55 @@ namespace c16
     }
   };
 
+  // a request of the same template instantiations with a different low-degree rule and different coefficient data
+  inline Config warm_config(const Config& g, const std::string& rule, Q alpha)
+  {
+    Config w = g; w.rule = rule; w.alpha = alpha;
+    for(auto& x : w.cu) x = x + Q(1);
+    for(auto& x : w.cv) x = x * Q(2) - Q(1);
+    return w;
+  }
+  inline std::string warm_rule(const std::string& rule) { return (rule == "barycentre") ? "trapezoidal" : "barycentre"; }
+
+  // mode 1/0: a warm-up request (discarded) runs before the real one in the same process: the result of a call must
+  //           not depend on earlier calls of the same template instantiation
+  // mode 2  : recording, first call of the process
+  // mode 3/5: history: requests [w1, real, w2, real, real] in one process (3 = classic route, 5 = job route),
+  //           every result is printed
   template<typename Shape_>
-  void run_fe(Cur& c, std::ostream& o, bool full)
+  void run_fe(Cur& c, std::ostream& o, int mode)
   {
     Config g = read_config<Shape_::dimension>(c);
-    Fe<Shape_> fe(g, full, o);
+    if(mode == 3 || mode == 5)
+    {
+      c.str(); // "W"
+      std::string r1 = c.str(); Q a1 = rdq(c); std::string r2 = c.str(); Q a2 = rdq(c);
+      std::vector<Config> seq;
+      seq.push_back(warm_config(g, r1, a1)); seq.push_back(g); seq.push_back(warm_config(g, r2, a2)); seq.push_back(g); seq.push_back(g);
+      o << "H " << seq.size();
+      for(const auto& q : seq)
+      {
+        o << " ";
+        Fe<Shape_> fe(q, mode == 3 ? 0 : 4, o);
+        fe.run();
+      }
+      return;
+    }
+    if(mode == 0 || mode == 1)
+    {
+      Config w = warm_config(g, warm_rule(g.rule), g.alpha + Q(1));
+      std::ostringstream sink;
+      Fe<Shape_> few(w, mode, sink);
+      few.run();
+    }
+    Fe<Shape_> fe(g, mode, o);
     fe.run();
   }
 
   // one definition per translation unit fe_<shape>.cpp
-  void fe_line(Cur& c, std::ostream& o, bool full);
-  void fe_quad(Cur& c, std::ostream& o, bool full);
-  void fe_tria(Cur& c, std::ostream& o, bool full);
-  void fe_hexa(Cur& c, std::ostream& o, bool full);
-  void fe_tetra(Cur& c, std::ostream& o, bool full);
+  void fe_line(Cur& c, std::ostream& o, int mode);
+  void fe_quad(Cur& c, std::ostream& o, int mode);
+  void fe_tria(Cur& c, std::ostream& o, int mode);
+  void fe_hexa(Cur& c, std::ostream& o, int mode);
+  void fe_tetra(Cur& c, std::ostream& o, int mode);
 }
